@@ -98,6 +98,11 @@ func c01Check(w *mon.W, words []uint64) bool {
 		w.Fail("Index/shape", d(mon.D{"len_idx64": len(idx), "len_idx64_trailing": len(idxT), "len_idx128": len(idx128)}))
 		return false
 	}
+	// the queries get the indexes as a caller may hold them: views into a larger array (an index file loaded into
+	// one buffer), poison before and between len and cap
+	qIdx, gIdx := dirtyI32(idx)
+	qIdxT, gIdxT := dirtyI32(idxT)
+	qIdx128, gIdx128 := dirtyI32(idx128)
 	var cnt int32
 	var bk [12]int64
 	parity := nw & 1
@@ -116,10 +121,10 @@ func c01Check(w *mon.W, words []uint64) bool {
 		}
 		bit := int32(bitAt(orig, i))
 		w.Op, w.A = "Rank64", int64(i)
-		c1, b1 := bitmap.Rank64(words, idx, int32(i))
-		c2, b2 := bitmap.Rank64(words, idxT, int32(i))
+		c1, b1 := bitmap.Rank64(words, qIdx, int32(i))
+		c2, b2 := bitmap.Rank64(words, qIdxT, int32(i))
 		w.Op = "Rank128"
-		c3, b3 := bitmap.Rank128(words, idx128, int32(i))
+		c3, b3 := bitmap.Rank128(words, qIdx128, int32(i))
 		if c1 != cnt || c2 != cnt || b1 != bit || b2 != bit {
 			cls := "count"
 			if c1 == cnt && c2 == cnt {
@@ -153,6 +158,10 @@ func c01Check(w *mon.W, words []uint64) bool {
 	}
 	if !guard() {
 		w.Fail("Rank/wrote-outside-len-of-argument", d(mon.D{"what": "poison next to the bitmap (before it, or between len and cap) was overwritten"}))
+		return false
+	}
+	if !gIdx() || !gIdxT() || !gIdx128() || !eqI32(qIdx, idx) || !eqI32(qIdxT, idxT) || !eqI32(qIdx128, idx128) {
+		w.Fail("Rank/wrote-to-or-outside-the-index-argument", d(mon.D{"what": "the rank index passed to Rank64/Rank128, or the poison next to it, changed during the queries"}))
 		return false
 	}
 	// the caller updates the bitmap IN PLACE (same backing array, same length) and indexes it again,
